@@ -5,6 +5,8 @@
 //
 //	dag <seed> <maxBlocks> <flags> <gen|matcher>    -> ok
 //	stack <req|resp> <global> <perReq> <LT>         -> loads=<n> out=<ok|budget|…>     (complete stores)
+//	stackskip req <global> <perReq> <k> <LT>        -> same; the requestor already holds the blocks of the first k
+//	                                                   loads and sends do-not-send-first-blocks=k
 package budgetstack
 
 import (
@@ -30,6 +32,7 @@ import (
 	mocknet "github.com/libp2p/go-libp2p/p2p/net/mock"
 
 	"github.com/ipfs/go-graphsync"
+	"github.com/ipfs/go-graphsync/donotsendfirstblocks"
 	gsimpl "github.com/ipfs/go-graphsync/impl"
 	gsnet "github.com/ipfs/go-graphsync/network"
 
@@ -49,7 +52,7 @@ type result struct {
 }
 
 // exchange: one request with the given budgets; side = "req" | "resp"
-func exchange(w *budget.World, side string, global, per uint64) (res result) {
+func exchange(w *budget.World, side string, global, per uint64, skip int, ref []int) (res result) {
 	ctx, cancel := context.WithTimeout(context.Background(), 20*time.Second)
 	defer cancel()
 	mn := mocknet.New()
@@ -71,6 +74,21 @@ func exchange(w *budget.World, side string, global, per uint64) (res result) {
 	st1 := &memstore.Store{}
 	ls1.SetReadStorage(st1)
 	ls1.SetWriteStorage(st1)
+	// resumed transfer: the requestor already holds the blocks of the first `skip` loads and tells
+	// the responder not to send them (do-not-send-first-blocks extension)
+	var exts []graphsync.ExtensionData
+	if skip > 0 {
+		for i := 0; i < skip && i < len(ref); i++ {
+			c := w.D.Cids[ref[i]]
+			wr, commit, err := ls1.StorageWriteOpener(linking.LinkContext{})
+			if err != nil {
+				return result{out: "error:store"}
+			}
+			wr.Write(w.D.Data[c])
+			commit(cidlink.Link{Cid: c})
+		}
+		exts = append(exts, graphsync.ExtensionData{Name: graphsync.ExtensionsDoNotSendFirstBlocks, Data: donotsendfirstblocks.EncodeDoNotSendFirstBlocks(int64(skip))})
+	}
 	var mu sync.Mutex
 	var respLoads []int
 	ls2 := w.D.LinkSystem(nil, func(_ linking.LinkContext, c cid.Cid) {
@@ -134,7 +152,7 @@ func exchange(w *budget.World, side string, global, per uint64) (res result) {
 		default:
 		}
 	})
-	progress, errs := requestor.Request(ctx, h2.ID(), cidlink.Link{Cid: w.D.Root}, w.Sel)
+	progress, errs := requestor.Request(ctx, h2.ID(), cidlink.Link{Cid: w.D.Root}, w.Sel, exts...)
 	var reqErrs []error
 	for progress != nil || errs != nil {
 		select {
@@ -234,7 +252,22 @@ func Run(cases []reg.Case, out *reg.Out) {
 				w, fullLT = ww, budget.FormatLT(lt)
 				ref, _ = budget.RefLoads(w, nil)
 				out.Line("ok")
-			case "stack":
+			case "stack", "stackskip":
+				skip := 0
+				if op[0] == "stackskip" {
+					// stackskip req <global> <perReq> <k> <LT>
+					if len(op) < 7 || op[1] != "req" {
+						out.Line("bad-op")
+						continue
+					}
+					k, err := strconv.Atoi(op[4])
+					if err != nil || k < 0 {
+						out.Line("bad-op")
+						continue
+					}
+					skip = k
+					op = append(append([]string{}, op[:4]...), op[5:]...)
+				}
 				if w == nil || len(op) < 6 || (op[1] != "req" && op[1] != "resp") {
 					out.Line("bad-op")
 					continue
@@ -249,7 +282,10 @@ func Run(cases []reg.Case, out *reg.Out) {
 					out.Line("lt-mismatch expected %s", fullLT)
 					continue
 				}
-				r := exchange(w, op[1], g, p)
+				r := exchange(w, op[1], g, p, skip, ref)
+				if skip > 0 {
+					out.Cov("stack:do-not-send-first-blocks")
+				}
 				out.Line("loads=%d out=%s", r.loads, r.out)
 				out.Cov("stack:" + op[1] + ":" + strings.SplitN(r.out, ":", 2)[0])
 				switch {
@@ -263,7 +299,7 @@ func Run(cases []reg.Case, out *reg.Out) {
 					out.Cov("stack:none")
 				}
 				n := effective(g, p)
-				where := fmt.Sprintf("%s stack (global %d, per-request %d, selector %s)", map[string]string{"req": "requestor", "resp": "responder"}[op[1]], g, p, w.SelName)
+				where := fmt.Sprintf("%s stack (global %d, per-request %d, do-not-send-first-blocks %d, selector %s)", map[string]string{"req": "requestor", "resp": "responder"}[op[1]], g, p, skip, w.SelName)
 				if strings.HasPrefix(r.out, "error:") {
 					out.Fail("stack-error", "%s: unexpected outcome %s", where, r.out)
 					continue
@@ -329,6 +365,15 @@ func Gen(seed int64, n int, tier string, w *bufio.Writer) {
 				}
 			}
 			fmt.Fprintf(w, "stack %s %d %d %s\n", side, g, p, lt)
+		}
+		if need >= 2 && r.Intn(2) == 0 {
+			// a resumed transfer under a requestor budget
+			k := 1 + r.Intn(int(need)-1)
+			g, p := pick(), uint64(0)
+			if r.Intn(2) == 0 {
+				g, p = 0, pick()
+			}
+			fmt.Fprintf(w, "stackskip req %d %d %d %s\n", g, p, k, lt)
 		}
 	}
 }
